@@ -807,7 +807,7 @@ def render_template(template_source, template_vars=None, template_internal_vars=
     return template.render()
 
 
-def register_all_params_in_track(assembled_source, complete_track_params=None):
+def register_all_params_in_track(assembled_source, complete_track_params=None, loader=None):
     j2env = jinja2.Environment()
 
     # we don't need the following j2 filters/macros but we define them anyway to prevent parsing failures
@@ -818,6 +818,22 @@ def register_all_params_in_track(assembled_source, complete_track_params=None):
 
     ast = j2env.parse(assembled_source)
     j2_variables = meta.find_undeclared_variables(ast)
+    if loader is not None:
+        # files pulled in with {% include "..." %} are not part of the assembled source; their parameters count as well
+        seen = set()
+        pending = list(meta.find_referenced_templates(ast))
+        while pending:
+            template_name = pending.pop()
+            if template_name is None or template_name in seen or template_name == "rally.helpers":
+                continue
+            seen.add(template_name)
+            try:
+                included_source = loader.get_source(j2env, template_name)[0]
+            except jinja2.TemplateNotFound:
+                continue
+            included_ast = j2env.parse(included_source)
+            j2_variables |= meta.find_undeclared_variables(included_ast)
+            pending.extend(meta.find_referenced_templates(included_ast))
     if complete_track_params:
         complete_track_params.populate_track_defined_params(j2_variables)
 
@@ -833,7 +849,7 @@ def render_template_from_file(template_file_name, template_vars, complete_track_
     base_path = io.dirname(template_file_name)
     template_source = TemplateSource(base_path, io.basename(template_file_name))
     template_source.load_template_from_file()
-    register_all_params_in_track(template_source.assembled_source, complete_track_params)
+    register_all_params_in_track(template_source.assembled_source, complete_track_params, loader=jinja2.FileSystemLoader(base_path))
 
     return render_template(
         loader=jinja2.FileSystemLoader(base_path),
